@@ -644,7 +644,7 @@ fn token_binder(cfg: &Cfg, rep: &mut Report, h: u64, steps: usize, to_max: bool)
                 is_bound[t] = true;
             }
         } else if k < 55 {
-            let mut n = *rng.pick(&[1usize, 2, 50, 99, 100, 101, 150, 200, 201]);
+            let mut n = *rng.pick(&[0usize, 1, 2, 50, 99, 100, 101, 150, 200, 201]);
             // close to the capacity: a batch that fills the binder exactly, or goes one past
             let room = 10_000usize.saturating_sub(bound.len());
             if far_from_limit {
@@ -674,7 +674,7 @@ fn token_binder(cfg: &Cfg, rep: &mut Report, h: u64, steps: usize, to_max: bool)
             if dup {
                 batch[n - 1] = batch[0];
             }
-            let clash = rng.chance(1, 12) && !bound.is_empty() && !exact;
+            let clash = rng.chance(1, 12) && !bound.is_empty() && !exact && n >= 1;
             if clash {
                 batch[n / 2] = *rng.pick(&bound);
             }
@@ -1235,7 +1235,7 @@ fn compliance(cfg: &Cfg, rep: &mut Report, h: u64, steps: usize) {
 }
 
 pub fn run(cfg: &Cfg, rep: &mut Report) {
-    rep.rule = "One reference set/map model per registry, every getter compared after every operation: (1) smart-account context rules on the multisig example (ids, per-type lists, count, fingerprints, signer/policy lists; limits 15/15/5), (2) claim topics and trusted issuers, both directions (15/50), (3) claim-issuer signing keys, both directions (50 keys per topic, 20 registries per key, driven exactly to the limit), (4) token binder incl. bind_tokens batches of {1,2,50,99,100,101,150,200,201} across buckets of 100 (thorough: to 10 000 and one past), (5) documents across buckets of 50 (thorough: to 5 000 and one past), (6) identities, country profiles (15) and recovery links, (7) claims of an identity, (8) compliance modules per hook (20). Small universes so that duplicates, absent keys, remove-first/last/only and re-adds occur constantly. Distinct case = (registry, op, duplicate/absent/fill-level class, outcome).".into();
+    rep.rule = "One reference set/map model per registry, every getter compared after every operation: (1) smart-account context rules on the multisig example (ids, per-type lists, count, fingerprints, signer/policy lists; limits 15/15/5), (2) claim topics and trusted issuers, both directions (15/50), (3) claim-issuer signing keys, both directions (50 keys per topic, 20 registries per key, driven exactly to the limit), (4) token binder incl. bind_tokens batches of {0,1,2,50,99,100,101,150,200,201} across buckets of 100 (thorough: to 10 000 and one past), (5) documents across buckets of 50 (thorough: to 5 000 and one past), (6) identities, country profiles (15) and recovery links, (7) claims of an identity, (8) compliance modules per hook (20). Small universes so that duplicates, absent keys, remove-first/last/only and re-adds occur constantly. Distinct case = (registry, op, duplicate/absent/fill-level class, outcome).".into();
     let nh = cfg.pick(5u64, 25);
     for k in 0..nh {
         let jobs: [(u64, &dyn Fn(&Cfg, &mut Report, u64)); 12] = [
